@@ -449,5 +449,9 @@ PROPS["C08"]["explanation"] += " (NULLNAME) every string read of a Vgroup's name
 PROPS["C12"]["rules"] = PROPS["C12"]["rules"] + [rules_dd.rule_duplicate_refused_first]
 PROPS["C12"]["explanation"] += " (DUPFIRST) HTPcreate looks an existing tag/ref up and refuses it before it claims and writes a descriptor."
 
+PROPS["C12"]["rules"] = PROPS["C12"]["rules"] + [rules_dd.rule_failure_tested_wide]
+PROPS["C12"]["explanation"] += " (NARROWFAIL) no search result of the directory code is compared with the failure value after narrowing to 16 bits (65535 is a legal reference)."
+PROPS["C20"]["rules"] = PROPS["C20"]["rules"] + [rules_dd.rule_failure_tested_wide]
+
 NOT_APPLICABLE = {}
 
